@@ -18,7 +18,7 @@ RULE = (
     "distinct = distinct cell tuples / distinct sequence shapes"
 )
 ASSUMPTIONS = ["EMPTY_ACK_DELAY is 0.1 s (read from the library at run time)", "simulated one-way latency 1 ms"]
-REQUIRED_MONITORS = {"table_cell": 500, "con_never_to_multicast": 500, "sequence": 50, "noninterference": 50}
+REQUIRED_MONITORS = {"table_cell": 500, "table_cell_busy_peer": 100, "con_never_to_multicast": 500, "sequence": 50, "noninterference": 50}
 EXHAUSTIVE = {"single_message_table": "types x codes x token known/unknown x unicast/multicast x delays x No-Response x result class as enumerated by cells()"}
 
 CON, NON, ACK, RST = 0, 1, 2, 3
@@ -134,6 +134,7 @@ class Node:
         self.hlog = []
         self.known_tokens = []
         self.requests = []
+        self.busy_tokens = set()
 
     async def start(self, n_known=1):
         from harness import simnet, testsite, refcodec as rc
@@ -148,7 +149,7 @@ class Node:
         def on_msg(peer, src, m, raw):
             if m is None:
                 return
-            if m.type == rc.CON and m.code != 0:
+            if m.type == rc.CON and m.code != 0 and m.token not in self.busy_tokens:
                 # auto-acknowledge whatever the node sends confirmably
                 peer.send(src, rc.Msg(rc.ACK, 0, m.mid, b"", (), b""))
             if rc.is_request(m.code) and m.token not in self.known_tokens:
@@ -160,6 +161,17 @@ class Node:
             self.requests.append(r)
         await asyncio.sleep(0.05)
         return self
+
+    async def make_busy(self):
+        """Leave the node with an unacknowledged confirmable message in flight to the peer and another one held back
+        behind it (NSTART): two slow requests whose separate CON responses the peer does not acknowledge."""
+        from harness import refcodec as rc
+        import asyncio
+
+        self.busy_tokens = {b"\xb1", b"\xb2"}
+        for k, tok in enumerate(sorted(self.busy_tokens)):
+            self.peer.send(self.S, rc.Msg(rc.CON, 2, 0x6001 + k, tok, ((11, b"r2"),), b"d=0.3;c=69;p=busy"))
+        await asyncio.sleep(0.6)
 
     def build(self, cell, mid, token, rc):
         typ, code, known, mc, d, nr, rcode = cell
@@ -244,6 +256,16 @@ def judge_cell(cell, test_msg, t_arrival, reacts, ead, rep, case, witness):
             rep.violation("table/%s/wrong-token" % key, "reaction carries the wrong token", witness(observed=obs, expected=repr(exp)), case)
 
 
+def judge_busy_slow(cell, test_msg, t_arrival, reacts, ead, rep, case, witness):
+    """slow CON request towards a node that is busy with the peer: the empty ACK is still due at EMPTY_ACK_DELAY"""
+    from harness import refcodec as rc
+
+    acks = [e for e in reacts if e.msg is not None and e.msg.mid == test_msg.mid and e.msg.type in (rc.ACK, rc.RST)]
+    ok = len(acks) == 1 and acks[0].msg.type == rc.ACK and acks[0].msg.code == 0 and abs((acks[0].t - t_arrival) - ead) < 2e-6
+    if not ok:
+        rep.violation("table/%s/busy-peer-empty-ack-wrong" % cell_key(cell), "with other confirmable messages to the same peer still unacknowledged, a slow CON request was not acknowledged by an empty ACK at EMPTY_ACK_DELAY", witness(observed=[(round(e.t - t_arrival, 6), e.msg.type, e.msg.code) for e in acks]), case)
+
+
 def cell_key(cell):
     typ, code, known, mc, d, nr, rcode = cell
     cls = "empty" if code == 0 else "request" if code <= 31 else "response" if 64 <= code <= 191 else "reserved"
@@ -255,7 +277,7 @@ def cell_key(cell):
     return "%s-%s%s" % ("CON NON ACK RST".split()[typ], cls, extra)
 
 
-def run_cell(cell, seed, rep, case):
+def run_cell(cell, seed, rep, case, busy=False):
     from harness import scenario, simnet, refcodec as rc
     import asyncio
     from aiocoap.numbers.constants import TransportTuning
@@ -265,6 +287,8 @@ def run_cell(cell, seed, rep, case):
 
     async def main(loop):
         node = await Node(loop).start(1)
+        if busy:
+            await node.make_busy()
         typ, code, known, mc, d, nr, rcode = cell
         token = node.known_tokens[0] if (known and node.known_tokens) else b"\xaa\xbb\xcc"
         if known and not node.known_tokens:
@@ -291,8 +315,18 @@ def run_cell(cell, seed, rep, case):
     node = box["node"]
     witness = lambda **kw: dict(cell=repr(cell), wire=node.net.dump(30), **kw)
     reacts = reactions(node, box["t_arrival"] - 0.001, rc)
-    rep.monitor("table_cell")
-    judge_cell(cell, box["msg"], box["t_arrival"], reacts, ead, rep, case, witness)
+    rep.monitor("table_cell_busy_peer" if busy else "table_cell")
+    if busy:
+        # a separate CON response may legitimately wait behind the unacknowledged one (NSTART): judge everything but it
+        exp = expected(cell, ead)
+        if isinstance(exp, list) and len(exp) == 2:
+            reacts = [e for e in reacts if not (e.msg is not None and e.msg.token == box["msg"].token and e.msg.type in (rc.CON, rc.NON) and rc.is_response(e.msg.code))]
+            cell_for_judge = cell
+            judge_busy_slow(cell, box["msg"], box["t_arrival"], reacts, ead, rep, case, witness)
+        else:
+            judge_cell(cell, box["msg"], box["t_arrival"], reacts, ead, rep, case, witness)
+    else:
+        judge_cell(cell, box["msg"], box["t_arrival"], reacts, ead, rep, case, witness)
     check_multicast_invariant(node, rep, case, rc)
     typ, code, known, mc, d, nr, rcode = cell
     # a matched response completes the pending request; nothing else does
@@ -387,6 +421,17 @@ def run_shard(shard, rep, only=None):
         run_cell(cell, shard["seed"] * 7919 + i, rep, case)
         if idx == 0 and i < 48 and i % 16 == 0:
             rep.sample({"class": "table-cell", "cell": repr(cell), "expected": repr(expected(cell, ead))})
+    # ---- the same table against a node that has an unacknowledged CON in flight to the peer and one held back ----
+    busy_cells = [c for c in allc if expected(c, ead) not in (None, "mc-non") and not c[3] and (c[4] in (0.0, 1.0))]
+    for i, cell in enumerate(busy_cells):
+        if i % of != idx:
+            continue
+        if tier == "quick" and (i // of) % 3 != 0:
+            continue
+        case = ["busy", i]
+        if only is not None and only != case:
+            continue
+        run_cell(cell, shard["seed"] * 7919 + 50000 + i, rep, case, busy=True)
     # ---- sequences -------------------------------------------------------------------
     judged = [c for c in allc if expected(c, ead) not in (None, "mc-non")]
     nseq = 12 if tier == "quick" else 1500
